@@ -462,8 +462,9 @@ type (
 		X, Lo, Hi Expr
 	}
 	ECall struct {
-		Fn   string
-		Args []Expr
+		Fn     string
+		Args   []Expr
+		Target Expr // call through a function-valued expression (x.f(args)) when Fn == ""
 	}
 	EQuant struct {
 		Forall bool
@@ -501,6 +502,13 @@ func (e *ESlice) String() string {
 	return e.X.String() + "[" + lo + ":" + hi + "]"
 }
 func (e *ECall) String() string {
+	if e.Fn == "" && e.Target != nil {
+		var as []string
+		for _, a := range e.Args {
+			as = append(as, a.String())
+		}
+		return e.Target.String() + "(" + strings.Join(as, ", ") + ")"
+	}
 	var as []string
 	for _, a := range e.Args {
 		as = append(as, a.String())
@@ -883,6 +891,27 @@ func (l *lexer) parsePostfix() (Expr, error) {
 				continue
 			}
 		}
+		if _, isSel := x.(*ESel); isSel && l.isOp("(") {
+			l.next()
+			var args []Expr
+			if !l.isOp(")") {
+				for {
+					a, err := l.parseExpr()
+					if err != nil {
+						return nil, err
+					}
+					args = append(args, a)
+					if !l.accept(",") {
+						break
+					}
+				}
+			}
+			if err := l.expect(")"); err != nil {
+				return nil, err
+			}
+			x = &ECall{Target: x, Args: args}
+			continue
+		}
 		switch {
 		case l.accept("."):
 			t := l.next()
@@ -1049,7 +1078,7 @@ func (l *lexer) parsePrimary() (Expr, error) {
 			if err := l.expect(")"); err != nil {
 				return nil, err
 			}
-			return &ECall{t.text, args}, nil
+			return &ECall{Fn: t.text, Args: args}, nil
 		}
 		return &EIdent{t.text}, nil
 	}
